@@ -68,7 +68,7 @@ fn witness(kind: &str, fields: &[(&str, String)], expected: &str, actual: &str) 
 }
 
 const PIECES: &[&str] = &[
-    "0", "1", "2", "9", "10", "12", "007", "100", "999999999999999999", ".", ".", "_", "pl", "alpha", "beta", "rc", "pre", "nb", "nb1", "nb2",
+    "0", "1", "2", "9", "10", "12", "007", "100", "999999999999999999", "9223372036854775807", "9223372036854775808", "99999999999999999999", ".", ".", "_", "pl", "alpha", "beta", "rc", "pre", "nb", "nb1", "nb2",
     "nb10", "a", "b", "z", "n", "p", "r", "A", "RC", "Alpha", "BETA", "NB3", "Pre", "PL", "é", "ß", "+", "~", " ", "x", "al", "be", "pr", "\u{212A}", "\u{0130}", "\u{FF21}", "\u{0391}",
 ];
 fn gen_version(r: &mut Rng) -> String {
@@ -122,7 +122,7 @@ fn search_c01(r: &mut Rng, la: bool, iters: usize) -> bool {
             return false;
         }
         // through best_match
-        let n2 = format!("p-{}", v2);
+        let n2 = if r.below(4) == 0 { format!("p-{}", equiv_variant(&v1, r)) } else { format!("p-{}", v2) };
         if let Ok(pat) = Pattern::new("p-*") {
             let e = best(&n, &n2, la);
             let a = pat.best_match(&n, &n2);
@@ -355,6 +355,19 @@ fn search_c05(r: &mut Rng, la: bool, iters: usize) -> bool {
     true
 }
 
+/// a differently spelled version that compares equal (or nearly) under the dewey rule
+fn equiv_variant(v: &str, r: &mut Rng) -> String {
+    match r.below(8) {
+        0 => format!("{}.0", v),
+        1 => v.replace('.', "_"),
+        2 => v.replace("rc", "pre"),
+        3 => v.replace("pre", "RC"),
+        4 => v.replacen('.', "pl", 1),
+        5 => v.to_uppercase(),
+        6 => format!("{}.0.0", v),
+        _ => format!("{}nb0", v),
+    }
+}
 fn search_c06(r: &mut Rng, la: bool, iters: usize) -> bool {
     let pats = ["p-[0-9]*", "p>=0", "{p,q}-[0-9]*", "p-1*", "p>=1<3", "lib*", "p-*", "9base*"];
     for _ in 0..iters {
@@ -370,7 +383,32 @@ fn search_c06(r: &mut Rng, la: bool, iters: usize) -> bool {
             }
         };
         let a = mk(r);
-        let b = mk(r);
+        let b = if r.below(4) == 0 && a.starts_with("p-") { format!("p-{}", equiv_variant(&a[2..], r)) } else { mk(r) };
+        // pairwise reduction of a candidate list in two different orders gives the same winner
+        if r.below(6) == 0 {
+            if let Ok(pat) = Pattern::new(p) {
+                let c = mk(r);
+                let d = if a.starts_with("p-") { format!("p-{}", equiv_variant(&a[2..], r)) } else { mk(r) };
+                let list = [a.clone(), b.clone(), c.clone(), d.clone()];
+                let red = |order: &[usize]| -> Option<String> {
+                    let mut cur: Option<String> = None;
+                    for &i in order {
+                        let x = &list[i];
+                        cur = match cur {
+                            None => if pat.matches(x) { Some(x.clone()) } else { None },
+                            Some(w) => Some(pat.best_match(&w, x).map(|s| s.to_string()).unwrap_or(w)),
+                        };
+                    }
+                    cur
+                };
+                let (r1, r2, r3) = (red(&[0, 1, 2, 3]), red(&[3, 2, 1, 0]), red(&[2, 0, 3, 1]));
+                if r1 != r2 || r1 != r3 {
+                    witness("best_reduce", &[("pattern", p.to_string()), ("a", list[0].clone()), ("b", list[1].clone()), ("c", list[2].clone()), ("d", list[3].clone())],
+                            &format!("{:?}", r1), &format!("{:?} / {:?}", r2, r3));
+                    return false;
+                }
+            }
+        }
         let (ma, mb) = (pattern_match(p, &a, la), pattern_match(p, &b, la));
         let e: Option<&str> = match (ma, mb) {
             (Some(true), Some(true)) => Some(best(&a, &b, la)),
@@ -668,6 +706,18 @@ fn search_c07(r: &mut Rng, iters: usize) -> bool {
             witness("summary_roundtrip", &[("text", t)], "identical text", &printed);
             return false;
         }
+        // the same final values reached through different orders / repetitions of set_* and push_* calls print the same text
+        if let Ok(e) = summary_parse(&t) {
+            let mut order: Vec<usize> = (0..e.len()).collect();
+            for i in (1..order.len()).rev() { let j = r.below(i + 1); order.swap(i, j); }
+            let mut api = Summary::new();
+            for &i in &order { more::api_apply(&mut api, &e[i].0, &e[i].1, r.below(12) as u8); }
+            let printed = format!("{}", api);
+            if printed != t {
+                witness("summary_api_print", &[("text", t.clone())], &t, &printed);
+                return false;
+            }
+        }
         // shuffled / duplicated input lines of the same final values print the same (history independence)
         let t2 = gen_entry_text(r, 6);
         if let (Ok(a), Ok(e)) = (Summary::from_str(&t2), summary_parse(&t2)) {
@@ -744,16 +794,26 @@ fn real_dinfo(d: &Distinfo) -> DInfo {
     DInfo { rcsid: d.rcsid().map(|s| s.as_bytes().to_vec()), dist: d.distfiles().iter().map(conv).collect(), patch: d.patchfiles().iter().map(conv).collect() }
 }
 const DNAMES: &[&[u8]] = &[b"foo-1.0.tar.gz", b"patch-aa", b"patch-local-x", b"emul-linux-patch-1", b"emul-patch-x", b"sub/dir/bar.tgz", b"foo\xc3\xa0bar", b"x\xc3\x85y",
-    b"x\xe9y", b"patch-src_caf\xe9.c", b"patch-ab.orig", b"patch-x.tar.y", b"a", b"a//b", b"a/b", b"lib(3).pdf", b"patch-zz~", b"\xa0", b"n\x85", b"patch-ac", b"proj/foo-1.0.tar.gz"];
+    b"x\xe9y", b"patch-src_caf\xe9.c", b"patch-ab.orig", b"patch-x.tar.y", b"a", b"a//b", b"a/b", b"lib(3).pdf", b"patch-zz~", b"\xa0", b"n\x85", b"patch-ac", b"proj/foo-1.0.tar.gz",
+    b"c#-mode-0.9.tar.gz", b"patch-src_c#.el", b"#x", b"a$b", b"x=y", b"a:b", b"(p)", b"a)b(c", b"q\\r", b"p%20q", b"emul-patch-1.0.tgz", b"emul-x-patch-2", b"patch-", b"a/./b", b"d/"];
+/// a file name of arbitrary non-whitespace bytes (printable specials, high bytes), sometimes with patch-like shapes
+fn gen_dname(r: &mut Rng) -> Vec<u8> {
+    if r.below(3) > 0 { return r.pick(DNAMES).to_vec(); }
+    let alpha: &[u8] = b"ab1-._/#$=:()[]{}%+~@!,;'\"\\\xc3\xa0\xe9\x85\xa0\xff";
+    let mut n: Vec<u8> = match r.below(4) { 0 => b"patch-".to_vec(), 1 => b"emul-".to_vec(), _ => vec![] };
+    for _ in 0..1 + r.below(7) { n.push(alpha[r.below(alpha.len())]); }
+    n
+}
 fn gen_dline(r: &mut Rng) -> Vec<u8> {
-    let name = r.pick(DNAMES);
+    let name_v = gen_dname(r);
+    let name: &[u8] = &name_v;
     let ws: [&[u8]; 4] = [b" ", b"  ", b"\t", b" \t "];
     let lead: [&[u8]; 3] = [b"", b"  ", b"\t"];
     let mut l = r.pick(&lead).to_vec();
     match r.below(12) {
         0 => l.extend_from_slice(b"# a comment (x) = y"),
         1 => {}
-        2 => l.extend_from_slice(b"$NetBSD: distinfo,v 1.2 2024/01/01 00:00:00 x\xe9 Exp $"),
+        2 => l.extend_from_slice(r.pick(&[b"$NetBSD: distinfo,v 1.2 2024/01/01 00:00:00 x\xe9 Exp $".as_slice(), b"$NetBSD: a\rb $", b"$NetBSD: # not a comment $", b"$NetBSD: x $\r", b"$NetBSD$", b"$NetBSD:x $"])),
         3 => l.extend_from_slice(r.pick(&[b"SHA1".as_slice(), b"SHA1 (foo)", b"Size (foo) = 12x bytes", b"CRC32 (foo) = 1234", b"SHA1 foo = abc", b"SHA1 (foo) XX abc", b"Size (foo) = -1 bytes", b"\xff\xfe (foo) = 1", b"SHA1 (foo = abc", b"=", b"SHA1 () = x"])),
         4 | 5 => { l.extend_from_slice(b"Size"); l.extend_from_slice(r.pick(&ws)); l.push(b'('); l.extend_from_slice(name); l.push(b')'); l.extend_from_slice(r.pick(&ws)); l.push(b'='); l.extend_from_slice(r.pick(&ws));
                    l.extend_from_slice(format!("{}", [0u64, 12, 4096, u64::MAX][r.below(4)]).as_bytes()); l.extend_from_slice(b" bytes"); }
@@ -777,10 +837,12 @@ fn search_c11(r: &mut Rng, iters: usize) -> bool {
 }
 fn gen_canonical(r: &mut Rng) -> DInfo {
     let mut d = DInfo::default();
-    if r.below(4) > 0 { d.rcsid = Some(b"$NetBSD: distinfo,v 1.80 2024/05/27 23:27:10 r\xe9 Exp $".to_vec()); }
+    if r.below(4) > 0 {
+        d.rcsid = Some(r.pick(&[b"$NetBSD: distinfo,v 1.80 2024/05/27 23:27:10 r\xe9 Exp $".as_slice(), b"$NetBSD: with\rcr $", b"$NetBSD: trailing cr $\r", b"$NetBSD: # hash \t tab $", b"$NetBSD: \xff\x00 $"]).to_vec());
+    }
     let mut used: Vec<Vec<u8>> = vec![];
     for _ in 0..r.below(5) {
-        let name = r.pick(DNAMES).to_vec();
+        let name = gen_dname(r);
         if name.is_empty() || used.iter().any(|u| PathBuf::from(std::ffi::OsStr::from_bytes(u)) == PathBuf::from(std::ffi::OsStr::from_bytes(&name))) { continue; }
         used.push(name.clone());
         let patch = is_patch_name(&name);
@@ -826,8 +888,8 @@ fn search_c12(r: &mut Rng, iters: usize) -> bool {
     let dir = std::env::temp_dir().join(format!("verif-c12-{}", std::process::id()));
     let _ = std::fs::create_dir_all(dir.join("proj"));
     let mut ok = true;
-    'outer: for it in 0..(iters / 200).max(5) {
-        let content: Vec<u8> = match r.below(4) { 0 => vec![], 1 => b"hello\n".to_vec(), 2 => b"--- a\n+++ b\n$NetBSD: x $\n@@ x\n $NetBSD$ body\nline".to_vec(), _ => (0..r.below(300)).map(|_| r.next() as u8).collect() };
+    'outer: for it in 0..(iters / 100).max(12) {
+        let content: Vec<u8> = match r.below(4) { 0 => vec![], 1 => b"hello\n".to_vec(), 2 => r.pick(&[b"--- a\n+++ b\n$NetBSD: x $\n@@ x\n $NetBSD$ body\nline".as_slice(), b"+# $Id$ $NetBSD: y $\n+CFLAGS=${CFLAGS} # $NetBSD$\nkeep $ this\n", b"$NetBSD\n$NetBS\nx$NetBSD: z $y\n\n$\n"]).to_vec(), _ => (0..r.below(300)).map(|_| r.next() as u8).collect() };
         for (fname, sub) in [("foo-1.0.tar.gz", false), ("patch-aa", false), ("foo-1.0.tar.gz", true)] {
             let rel = if sub { format!("proj/{}", fname) } else { fname.to_string() };
             let path = dir.join(&rel);
@@ -853,7 +915,16 @@ fn search_c12(r: &mut Rng, iters: usize) -> bool {
             if !sub && !is_patch { di.insert(Entry::new(format!("proj/{}", fname), format!("proj/{}", fname), vec![Checksum::new(Digest::SHA1, "00".into())], Some(1))); }
             let corrupt = it % 3;
             let mut rec = sums.iter().map(|c| Checksum::new(c.digest, c.hash.clone())).collect::<Vec<_>>();
-            if corrupt == 1 { let h = &mut rec[r.below(6)].hash; let c = if h.ends_with('0') { '1' } else { '0' }; h.pop(); h.push(c); }
+            if corrupt == 1 {
+                let h = &mut rec[r.below(6)].hash;
+                match r.below(5) {
+                    0 => { h.pop(); }                                  // truncated
+                    1 => { h.clear(); }                                // empty placeholder
+                    2 => { h.push('0'); }                              // extra character
+                    3 => { let k = r.below(h.len()); let c = if h.as_bytes()[k] == b'0' { "1" } else { "0" }; h.replace_range(k..k + 1, c); }
+                    _ => { let c = if h.ends_with('0') { '1' } else { '0' }; h.pop(); h.push(c); }
+                }
+            }
             let recsize = if corrupt == 2 { content.len() as u64 + 1 } else { content.len() as u64 };
             if sub {
                 // both `proj/NAME` (listed first, bogus values) and `NAME` are recorded: the SHORTEST trailing sub-path must be used
@@ -910,12 +981,35 @@ fn run_witness(args: &[String]) -> i32 {
             Ok(p) => p.best_match(&g("a"), &g("b")).unwrap_or("<none>").to_string(),
             Err(_) => "compile-error".into(),
         },
+        "best_reduce" => match Pattern::new(&g("pattern")) {
+            Ok(pat) => {
+                let list = [g("a"), g("b"), g("c"), g("d")];
+                let red = |order: &[usize]| -> Option<String> {
+                    let mut cur: Option<String> = None;
+                    for &i in order {
+                        let x = &list[i];
+                        cur = match cur { None => if pat.matches(x) { Some(x.clone()) } else { None }, Some(w) => Some(pat.best_match(&w, x).map(|s| s.to_string()).unwrap_or(w)) };
+                    }
+                    cur
+                };
+                let (r1, r2, r3) = (red(&[0, 1, 2, 3]), red(&[3, 2, 1, 0]), red(&[2, 0, 3, 1]));
+                if r1 == r2 && r1 == r3 { format!("{:?}", r1) } else { format!("{:?} / {:?} / {:?}", r1, r2, r3) }
+            }
+            Err(_) => "compile-error".into(),
+        },
         "pkgname" => {
             let pn = PkgName::new(&g("name"));
             format!("{}|{}", pn.pkgbase(), pn.pkgversion())
         }
         "pkgrevision" => format!("{:?}", PkgName::new(&g("name")).pkgrevision()),
         "summary_parse" => format!("{:?}", real_summary(&g("text"))),
+        "summary_api_print" => {
+            // replay: the canonical text's values set through the API in declaration order, multi-line variables by pushes
+            match summary_parse(&g("text")) {
+                Ok(e) => { let mut api = Summary::new(); for (k, v) in &e { more::api_apply(&mut api, k, v, 3); } format!("{}", api) }
+                Err(_) => "oracle-parse-error".into(),
+            }
+        }
         "summary_roundtrip" | "summary_print" => match Summary::from_str(&g("text")) { Ok(s) => format!("{}", s), Err(_) => "parse-error".into() },
         "stream_chunks" | "stream_print" => {
             let bytes = unhexb(&g("hexstream"));
